@@ -90,6 +90,10 @@ def cfgs_plans(tier, rng):
                                payload=pick(rng, [0, 0, 2]), plans=1, serial=k % 2, history=1, log="on"))
     out.append(cfgmod.make(n=8, head=1, manual=0, limit=2, cap=3, payload=0, plans=1, serial=0, history=1, log="on"))      # per-state bit sets exactly one byte long
     out.append(cfgmod.make(n=3, head=1, manual=0, limit=2, cap=2, payload=2, plans=1, serial=1, history=1, log="off"))     # no logger: origins of plan-issued requests are still visible to guards and history
+    out.append(cfgmod.make(n=130, head=1, manual=0, limit=2, cap=3, payload=0, plans=1, serial=0, history=1, log="on"))    # state ids above 127: 17 bytes of report bits, ids that do not fit 7 bits
+    out.append(cfgmod.make(n=3, head=1, manual=1, limit=2, cap=0, payload=0, plans=1, serial=0, history=0, log="on"))      # no TaskCapacityN<>: the capacity is the number of states
+    if tier != "quick":
+        out.append(cfgmod.make(n=255, head=1, manual=0, limit=2, cap=0, payload=0, plans=1, serial=0, history=0, log="on"))  # ... 255 states: CAPACITY == INVALID_LONG, the largest there is
     return out
 
 def cfgs_plans9(tier, rng):
@@ -98,6 +102,7 @@ def cfgs_plans9(tier, rng):
     for k in range(6 if tier == "quick" else 16):
         out.append(cfgmod.make(n=pick(rng, [1, 2, 3]), head=1, manual=1 if k % 3 else 0, limit=pick(rng, [2, 4]), cap=[1, 2, 3][k % 3],
                                payload=[0, 2, 0][k % 3], plans=1, serial=k % 2, history=1, log="on"))
+    out.append(cfgmod.make(n=70, head=1, manual=1, limit=2, cap=2, payload=2, plans=1, serial=0, history=1, log="on"))     # report bits spanning nine bytes, payload plans
     return out
 
 P_PLANS = BASE.with_(n_ops=(10, 36), n_tab=(1, 8), p_logger_at_construct=1.0,
